@@ -140,13 +140,13 @@ def describe(c):
     s = "StreamTokenizer(min_length=%d, max_length=%d, max_continuous_silence=%d" % (c["min_length"], c["max_length"], c["mcs"])
     if c.get("init_min") or c.get("init_max_silence"):
         s += ", init_min=%d, init_max_silence=%d" % (c["init_min"], c["init_max_silence"])
-    return s + ", mode=%d) on '%s'%s" % (c["mode"], stream_str(c["valid"]), " (frames are falsy objects)" if c.get("falsy") else "")
+    return s + ", mode=%d) on '%s'%s" % (c["mode"], stream_str(c["valid"]), {True: " (frames are falsy objects)", "mixed": " (every other frame, starting with the first, is a falsy empty object)", "none-validator": " (validator answers True or None)"}.get(c.get("falsy"), ""))
 
 
 def replay_tokens(c, delivery="list"):
     ak = loader.real_auditok()
     return oracles.run_tokenizer(ak, c["valid"], c["min_length"], c["max_length"], c["mcs"], c.get("init_min", 0),
-                                 c.get("init_max_silence", 0), c["mode"], delivery, falsy=bool(c.get("falsy")))
+                                 c.get("init_max_silence", 0), c["mode"], delivery, falsy=c.get("falsy") or False)
 
 
 # --------------------------------------------------------------- bounded runs
@@ -154,10 +154,16 @@ def bmc_harness(core, N, mode, with_init, oblig, delivery="list", falsy=False):
     """oblig(ctx) -> dict of named conditions; ctx: frames, toks, src, P, mode, e"""
     def path(e):
         P = sym_params(e, with_init)
-        FRAME_CLASS[0] = FalsyFrame if falsy else Frame
+        FRAME_CLASS[0] = FalsyFrame if falsy is True else Frame
         frames = sym_frames(N)
         FRAME_CLASS[0] = Frame
-        tk = make_tokenizer(core, P, mode, with_init)
+        if falsy == "mixed":
+            frames = [FalsyFrame(f.pos, f.valid) if i % 2 == 0 else f for i, f in enumerate(frames)]
+        if falsy == "none-validator":
+            # "every validator": one that answers True or nothing at all
+            tk = make_tokenizer(core, P, mode, with_init, val=lambda f: True if f.valid else None)
+        else:
+            tk = make_tokenizer(core, P, mode, with_init)
         src = Src(frames)
         out = {}
         try:
@@ -171,10 +177,10 @@ def bmc_harness(core, N, mode, with_init, oblig, delivery="list", falsy=False):
         except Exception as ex:
             m = e.model()
             return {"status": "cex", "failing": ["raised %s: %s" % (type(ex).__name__, str(ex)[:80])],
-                    "cex": cex_from_model(m, N, P, mode, with_init, {"falsy": True} if falsy else None) if m is not None else None}
+                    "cex": cex_from_model(m, N, P, mode, with_init, {"falsy": falsy} if falsy else None) if m is not None else None}
         ctx = dict(frames=frames, toks=toks, src=src, P=P, mode=mode, e=e, N=N, with_init=with_init, tk=tk)
         conds = oblig(ctx)
-        r = discharge(e, conds, lambda m: cex_from_model(m, N, P, mode, with_init, {"falsy": True} if falsy else None))
+        r = discharge(e, conds, lambda m: cex_from_model(m, N, P, mode, with_init, {"falsy": falsy} if falsy else None))
         r["tokens"] = len(toks)
         r["shape"] = [(int(s) if isinstance(s, int) else str(s), int(en) if isinstance(en, int) else str(en)) for _, s, en in toks][:6]
         if r["status"] == "ok" and delivery == "list" and __import__("zlib").crc32(bytes(e.trace)) % 5 == 0:
@@ -182,7 +188,7 @@ def bmc_harness(core, N, mode, with_init, oblig, delivery="list", falsy=False):
             # package and must give the token boundaries the symbolic run produced
             m = e.model()
             if m is not None:
-                c = cex_from_model(m, N, P, mode, with_init, {"falsy": True} if falsy else None)
+                c = cex_from_model(m, N, P, mode, with_init, {"falsy": falsy} if falsy else None)
                 try:
                     _, ctoks, _ = replay_tokens(c)
                     same = [(s, en) for _, s, en in ctoks] == [(s, en) for _, s, en in toks]
